@@ -14,7 +14,8 @@ RULE = ("slot lines (unique tag + non-word delimiter + 1-5 planted tokens: IPv4 
         "hits, filler) cleaned under random configurations (plain / regex+POSIX pattern lists, keyword lists, 5 host "
         "names, obfuscate / obfuscate_hostname / obfuscate_mac, per-spec no_obfuscate subsets, no_redact) through "
         "Cleaner.clean_content, Cleaner.clean_file and the provider path (_clean_content / write with spec-level "
-        "exemptions); independent recognisers check the output by tag; one evaluation = one (content, configuration, "
+        "exemptions), also on the width-preserving path of the netstat_-neopa spec (column-aligned lines, an address twice a "
+        "line), lines with up to four credentials, keywords inside longer words; independent recognisers check the output by tag; one evaluation = one (content, configuration, "
         "entry point); non-trivial = >= 2 sensitive kinds planted and at least one survivor line; distinct by case hash")
 ASSUMPTIONS = [
     "tokens are delimited by non-word characters on both sides; MAC neighbours are additionally not ':'/'-'",
